@@ -2,6 +2,8 @@ SPECIFICATION TSpec
 CONSTANTS
   StaleNegativeMemo = FALSE
   GuardIsInstance = FALSE
+  RawNames = {}
+  LinkDirnameUntranscoded = FALSE
 CONSTRAINT Record
 POSTCONDITION Post
 CHECK_DEADLOCK FALSE
